@@ -963,9 +963,17 @@ Qed.
    "tcp://[x:0", which the parser rejects: the round trip fails.  With the
    repaired bracket scan the input is rejected. *)
 Definition bracket_url : list N := [116; 99; 112; 58; 47; 47; 91; 91; 120; 93].
+Definition fx_bracket_pinned : uflags := mkUflags true true true true false.
+Definition reparse (fx : uflags) (raw : list N) : ures nurl :=
+  match url_parse fx no_resolver raw with
+  | UVal u => match url_sprintf u with
+              | Some out => url_parse fx no_resolver (out ++ [0])
+              | None => UOob
+              end
+  | _ => UOob
+  end.
 Lemma bracket_host_witness :
-  exists u out, url_parse (mkUflags true true true true false) no_resolver (bracket_url ++ [0]) = UVal u /\
-    url_sprintf u = Some out /\
-    url_parse (mkUflags true true true true false) no_resolver (out ++ [0]) = UErr NNG_EINVAL /\
-    url_parse fx_repaired no_resolver (bracket_url ++ [0]) = UErr NNG_EINVAL.
-Proof. vm_compute. eexists. eexists. repeat split. Qed.
+  (exists u, url_parse fx_bracket_pinned no_resolver (bracket_url ++ [0]) = UVal u) /\
+  reparse fx_bracket_pinned (bracket_url ++ [0]) = UErr NNG_EINVAL /\
+  url_parse fx_repaired no_resolver (bracket_url ++ [0]) = UErr NNG_EINVAL.
+Proof. vm_compute. split; [eexists; reflexivity | split; reflexivity]. Qed.
